@@ -152,7 +152,7 @@ func (g *Gen) OPRSet(h uint32, version uint8, prev []string, n int, rates map[st
 	}
 	for i := 0; i < n; i++ {
 		idx := i
-		_, extids, content := testutils.RandomOPRWithFieldsAndModify(version, int32(h), pw, func(o interface{}) {
+		_, extids, content := g.randomOPR(version, int32(h), pw, func(o interface{}) {
 			switch c := o.(type) {
 			case *opr.V1Content:
 				c.CoinbaseAddress = g.Miners[idx%len(g.Miners)]
@@ -285,3 +285,80 @@ func Burn(h uint32, addr factom.FAAddress, amount uint64, salt int) factom.Facto
 func shaHex(b []byte) string { s := sha256.Sum256(b); return hex.EncodeToString(s[:]) }
 
 var _ = factoidaddress.Valid
+
+func factomFA(s string) (factom.FAAddress, error) { return factom.NewFAAddress(s) }
+
+
+var genLXR = lxr.Init(lxr.Seed, 8, lxr.HashSize, lxr.Passes)
+
+// randomOPR is testutils.RandomOPRWithFieldsAndModify with every random choice drawn from the
+// generator's own PRNG (the library version uses the global math/rand source, which the daemon's
+// JSON-RPC client also draws from, so chains would not be reproducible from the seed).
+func (g *Gen) randomOPR(version uint8, dbht int32, prevWinners []string, modify func(o interface{})) (entryhash []byte, extids [][]byte, content []byte) {
+	var cb factom.FAAddress
+	g.R.Read(cb[:])
+	coinbase := cb.String()
+	id := make([]byte, 8)
+	g.R.Read(id)
+	entryhash = make([]byte, 32)
+	g.R.Read(entryhash)
+	extids = make([][]byte, 3)
+	extids[0] = make([]byte, 8)
+	g.R.Read(extids[0])
+	var io opr.OPR
+	switch version {
+	case 1:
+		o := new(opr.V1Content)
+		o.WinPreviousOPR = prevWinners
+		o.Dbht = dbht
+		o.CoinbaseAddress = coinbase
+		o.FactomDigitalID = fmt.Sprintf("%x", id)
+		o.Assets = make(opr.V1AssetList)
+		for _, asset := range opr.V1Assets {
+			o.Assets[asset] = float64(int64(g.R.Float64()*1e4)) / 1e4
+			if o.Assets[asset] == 0 {
+				o.Assets[asset] = 1
+			}
+		}
+		extids[2] = []byte{1}
+		io = o
+	case 2, 3, 4, 5:
+		o := new(opr.V2Content)
+		o.Winners = make([][]byte, len(prevWinners))
+		for i := range o.Winners {
+			o.Winners[i], _ = hex.DecodeString(prevWinners[i])
+		}
+		o.Height = dbht
+		o.Address = coinbase
+		o.ID = fmt.Sprintf("%x", id)
+		assetList := opr.V2Assets
+		if version == 4 {
+			assetList = opr.V4Assets
+		}
+		if version == 5 {
+			assetList = opr.V5Assets
+		}
+		o.Assets = make([]uint64, len(assetList))
+		for i := range assetList {
+			o.Assets[i] = g.R.Uint64() % 100000 * 1e8
+			if o.Assets[i] == 0 {
+				o.Assets[i] = 1e8
+			}
+		}
+		extids[2] = []byte{version}
+		io = o
+	default:
+		return nil, nil, nil
+	}
+	if modify != nil {
+		modify(io)
+	}
+	content, err := io.Marshal()
+	if err != nil {
+		return nil, nil, nil
+	}
+	oprhash := sha256.Sum256(content)
+	hsh := genLXR.Hash(append(oprhash[:], extids[0]...))
+	extids[1] = hsh[:8]
+	return entryhash, extids, content
+}
